@@ -115,6 +115,12 @@ func TestGotransFixtures(t *testing.T) {
 	for _, x := range []int{-3, 0, 1, 2, 3, 4, 7, 8, 9, 27, 30, 97} {
 		x := x
 		add("SumTo", cz(int64(x)), func() string { return cz(int64(gtfix.SumTo(x))) })
+		add("ErrF", cz(int64(x)), func() string {
+			v, err := gtfix.ErrF(x)
+			return "(" + cz(int64(v)) + ", " + cb(err != nil) + ")"
+		})
+		add("UseErr", cz(int64(x)), func() string { return cz(int64(gtfix.UseErr(x))) })
+		add("Evens", cz(int64(x)), func() string { return czs(gtfix.Evens(x)) })
 		add("Collatz", cz(int64(x)), func() string { return cz(int64(gtfix.Collatz(x))) })
 		add("Nest", cz(int64(x)), func() string { return cz(int64(gtfix.Nest(x))) })
 		for _, xs := range [][]int{nil, {1}, {-5, 3, 200, 4}, {7, 0, 7, -1, 2}} {
